@@ -25,12 +25,29 @@ from sklearn.preprocessing import normalize
 from vectorizers.utils import str_to_bytes
 import scipy.sparse
 
+import functools
 import os
+import shutil
 import tempfile
 
 from types import GeneratorType
 
 _dummy_cost = np.zeros((2, 2), dtype=np.float64)
+
+
+def _scratch_directory(func):
+    """Run ``func`` with ``cachedir`` replaced by a fresh private directory
+    that is removed again when ``func`` returns or raises."""
+
+    @functools.wraps(func)
+    def wrapper(*args, cachedir=None, **kwargs):
+        scratch = tempfile.mkdtemp(dir=cachedir)
+        try:
+            return func(*args, cachedir=scratch, **kwargs)
+        finally:
+            shutil.rmtree(scratch, ignore_errors=True)
+
+    return wrapper
 
 
 @numba.njit(nogil=True, fastmath=True)
@@ -601,6 +618,7 @@ def sinkhorn_vectors_sparse_internal(
     return result
 
 
+@_scratch_directory
 def lot_vectors_sparse(
     sample_vectors,
     weight_matrix,
@@ -777,6 +795,7 @@ def lot_vectors_sparse(
     return result, components
 
 
+@_scratch_directory
 def lot_vectors_dense(
     sample_vectors,
     sample_distributions,
@@ -970,6 +989,7 @@ def _chunks_from_generators(vectors, distributions, chunk_size=128):
     return vector_chunk, distribution_chunk
 
 
+@_scratch_directory
 def lot_vectors_dense_generator(
     sample_vectors,
     sample_distributions,
@@ -1171,6 +1191,7 @@ def lot_vectors_dense_generator(
     return result, components
 
 
+@_scratch_directory
 def sinkhorn_vectors_sparse(
     sample_vectors,
     weight_matrix,
